@@ -483,6 +483,63 @@ pub mod vx_export {
         Ok((inside, after))
     }
 
+    /// C15 (several pending states of ONE user in one transaction, values NOT ordered like their epochs): every single-state query and
+    /// the bulk versions query inside the transaction vs the same query after commit. Returns descriptions of what differs.
+    pub async fn c15_many_pending(cache: bool) -> Result<Vec<String>, AkdError> {
+        use crate::storage::types::{ValueState, ValueStateRetrievalFlag as F};
+        let db = AsyncInMemoryDatabase::new();
+        let m = if cache { StorageManager::new(db.clone(), None, None, None) } else { StorageManager::new_no_cache(db.clone()) };
+        let user = AkdLabel::from("u");
+        let st = |e: u64, v: u64, val: &str| DbRecord::ValueState(ValueState {
+            value: AkdValue(val.as_bytes().to_vec()), version: v, label: NodeLabel::new([v as u8; 32], 256), epoch: e, username: user.clone() });
+        m.set(st(1, 1, "m")).await.map_err(AkdError::Storage)?;
+        if !m.begin_transaction() { return Err(AkdError::TestErr("no txn".to_string())); }
+        // pending: epochs 2, 3, 4 with values that sort the other way round
+        for (e, v, val) in [(2u64, 2u64, "zz"), (3, 3, "kk"), (4, 4, "aa")] { m.set(st(e, v, val)).await.map_err(AkdError::Storage)?; }
+        m.set(DbRecord::Azks(Azks { latest_epoch: 4, num_nodes: 1 })).await.map_err(AkdError::Storage)?;
+        let flags = [F::MaxEpoch, F::MinEpoch, F::LeqEpoch(1), F::LeqEpoch(2), F::LeqEpoch(3), F::LeqEpoch(9), F::SpecificEpoch(3), F::SpecificVersion(2)];
+        let mut inside = vec![];
+        for f in flags.iter() {
+            let a = m.get_user_state(&user, *f).await.ok().map(|s| (s.epoch, s.version, s.value.0));
+            let b = m.get_user_state_versions(&[user.clone()], *f).await.ok().and_then(|mut h| h.remove(&user)).map(|(v, val)| (v, val.0));
+            inside.push((a, b));
+        }
+        m.commit_transaction().await.map_err(AkdError::Storage)?;
+        let mut bad = vec![];
+        for (i, f) in flags.iter().enumerate() {
+            let a = m.get_user_state(&user, *f).await.ok().map(|s| (s.epoch, s.version, s.value.0));
+            let b = m.get_user_state_versions(&[user.clone()], *f).await.ok().and_then(|mut h| h.remove(&user)).map(|(v, val)| (v, val.0));
+            if inside[i].0 != a { bad.push(format!("get_user_state({f:?}) answered {:?} inside the transaction and {:?} after the commit", inside[i].0, a)); }
+            if inside[i].1 != b { bad.push(format!("get_user_state_versions({f:?}) answered {:?} inside the transaction and {:?} after the commit", inside[i].1, b)); }
+        }
+        Ok(bad)
+    }
+    /// C15 (rollback discards every pending write, also through the cache): committed node N and epoch record; in a transaction write
+    /// a different node under N's key, a new node and a newer epoch record through the path `which` (0: set, 1: batch_set); roll back;
+    /// read all three through the manager. Returns descriptions of what is not the committed state.
+    pub async fn c15_rollback_with_cache(cache: bool, which: u8) -> Result<Vec<String>, AkdError> {
+        let db = AsyncInMemoryDatabase::new();
+        let m = if cache { StorageManager::new(db.clone(), None, None, None) } else { StorageManager::new_no_cache(db.clone()) };
+        let node = |first: u8, tag: u8| {
+            let mut n = crate::tree_node::new_leaf_node::<akd_core::WhatsAppV1Configuration>(lbl(first), &AzksValue([tag; 32]), 1);
+            n.last_epoch = tag as u64;
+            DbRecord::TreeNode(crate::tree_node::TreeNodeWithPreviousValue::from_tree_node(n))
+        };
+        m.batch_set(vec![node(0x10, 1), DbRecord::Azks(Azks { latest_epoch: 1, num_nodes: 2 })]).await.map_err(AkdError::Storage)?;
+        if !m.begin_transaction() { return Err(AkdError::TestErr("no txn".to_string())); }
+        let pending = vec![node(0x10, 2), node(0x20, 2), DbRecord::Azks(Azks { latest_epoch: 2, num_nodes: 3 })];
+        if which == 0 { for r in pending { m.set(r).await.map_err(AkdError::Storage)?; } } else { m.batch_set(pending).await.map_err(AkdError::Storage)?; }
+        m.rollback_transaction().map_err(AkdError::Storage)?;
+        let mut bad = vec![];
+        match m.get::<crate::tree_node::TreeNodeWithPreviousValue>(&NodeKey(lbl(0x10))).await {
+            Ok(DbRecord::TreeNode(t)) if t.latest_node.last_epoch == 1 => {}
+            other => bad.push(format!("the rewritten node is not the committed one after the rollback: {:?}", other.map(|_| "a different record"))),
+        }
+        if m.get::<crate::tree_node::TreeNodeWithPreviousValue>(&NodeKey(lbl(0x20))).await.is_ok() { bad.push("a node that was only pending is readable after the rollback".to_string()); }
+        match m.get::<Azks>(&crate::append_only_zks::DEFAULT_AZKS_KEY).await { Ok(DbRecord::Azks(a)) if a.latest_epoch == 1 => {}, _ => bad.push("the epoch record is not the committed one after the rollback".to_string()) }
+        Ok(bad)
+    }
+
     /// C15 (pending writes survive a refused begin): begin, set X, begin again (refused: a transaction is open), then read X through
     /// the manager and commit. Returns (second begin refused, X readable before commit, X in the database after commit).
     pub async fn c15_refused_begin() -> Result<(bool, bool, bool), AkdError> {
@@ -717,7 +774,7 @@ pub mod vx_export {
     // ---- C13: a request racing a publish (deterministic: the database wrapper runs a publish of ANOTHER directory instance over the
     // same database at a chosen read of the request)
     #[derive(Clone)]
-    pub struct HookDb<TC> { inner: AsyncInMemoryDatabase, armed: Arc<AtomicBool>, _tc: std::marker::PhantomData<TC> }
+    pub struct HookDb<TC> { inner: AsyncInMemoryDatabase, armed: Arc<AtomicBool>, _tc: std::marker::PhantomData<TC>, mode: Arc<std::sync::atomic::AtomicU8>, seen: Arc<std::sync::Mutex<Option<String>>> }
     impl<TC: Configuration> HookDb<TC> {
         async fn fire(&self) {
             if self.armed.swap(false, Ordering::SeqCst) {
@@ -730,22 +787,56 @@ pub mod vx_export {
     #[async_trait::async_trait]
     impl<TC: Configuration> Database for HookDb<TC> {
         async fn set(&self, record: DbRecord) -> Result<(), StorageError> { self.inner.set(record).await }
-        async fn batch_set(&self, records: Vec<DbRecord>, state: DbSetState) -> Result<(), StorageError> { self.inner.batch_set(records, state).await }
-        async fn get<St: Storable>(&self, id: &St::StorageKey) -> Result<DbRecord, StorageError> { self.inner.get::<St>(id).await }
+        async fn batch_set(&self, records: Vec<DbRecord>, state: DbSetState) -> Result<(), StorageError> {
+            // mode 2: right after the storage operation that carries the epoch record, a FRESH uncached reader instance looks up "a"
+            let has_epoch = records.iter().any(|r| matches!(r, DbRecord::Azks(_)));
+            let r = self.inner.batch_set(records, state).await;
+            if has_epoch && self.mode.load(Ordering::SeqCst) == 2 && self.armed.swap(false, Ordering::SeqCst) {
+                let mut what = None;
+                if let Ok(reader) = Directory::<TC, _, _>::new(StorageManager::new_no_cache(self.inner.clone()), HardCodedAkdVRF {}, AzksParallelismConfig::disabled()).await {
+                    if let Ok(pk) = reader.get_public_key().await {
+                        let la = AkdLabel::from("a");
+                        if let Ok((proof, eh)) = reader.lookup(la.clone()).await {
+                            if let Err(e) = lookup_verify::<TC>(pk.as_bytes(), eh.hash(), eh.epoch(), la, proof) { what = Some(format!("a reader served right after the storage operation that wrote the epoch record of epoch {} answered lookup(a) with a proof that does not verify: {e}", eh.epoch())); }
+                        }
+                    }
+                }
+                *self.seen.lock().unwrap() = what;
+            }
+            r
+        }
+        async fn get<St: Storable>(&self, id: &St::StorageKey) -> Result<DbRecord, StorageError> {
+            // mode 1: the other instance's publish runs right BEFORE this instance's read of the epoch record
+            if self.mode.load(Ordering::SeqCst) == 1 && matches!(St::data_type(), crate::storage::types::StorageType::Azks) { self.fire().await; }
+            self.inner.get::<St>(id).await
+        }
         async fn batch_get<St: Storable>(&self, ids: &[St::StorageKey]) -> Result<Vec<DbRecord>, StorageError> { self.inner.batch_get::<St>(ids).await }
-        async fn get_user_data(&self, username: &AkdLabel) -> Result<KeyData, StorageError> { self.fire().await; self.inner.get_user_data(username).await }
-        async fn get_user_state(&self, username: &AkdLabel, flag: ValueStateRetrievalFlag) -> Result<ValueState, StorageError> { self.fire().await; self.inner.get_user_state(username, flag).await }
+        async fn get_user_data(&self, username: &AkdLabel) -> Result<KeyData, StorageError> { if self.mode.load(Ordering::SeqCst) == 0 { self.fire().await; } self.inner.get_user_data(username).await }
+        async fn get_user_state(&self, username: &AkdLabel, flag: ValueStateRetrievalFlag) -> Result<ValueState, StorageError> { if self.mode.load(Ordering::SeqCst) == 0 { self.fire().await; } self.inner.get_user_state(username, flag).await }
         async fn get_user_state_versions(&self, usernames: &[AkdLabel], flag: ValueStateRetrievalFlag) -> Result<HashMap<AkdLabel, (u64, AkdValue)>, StorageError> {
-            self.fire().await;
+            if self.mode.load(Ordering::SeqCst) == 0 { self.fire().await; }
             self.inner.get_user_state_versions(usernames, flag).await
         }
+    }
+    /// C13 / C11: a publish that updates label a; right after the storage operation that writes the epoch record a fresh uncached reader
+    /// looks a up. Returns Some(description) if the reader got an answer that does not verify.
+    pub async fn c13_reader_after_epoch_record<TC: Configuration>() -> Result<Option<String>, AkdError> {
+        let armed = Arc::new(AtomicBool::new(false));
+        let db = HookDb::<TC> { inner: AsyncInMemoryDatabase::new(), armed: armed.clone(), _tc: std::marker::PhantomData, mode: Arc::new(std::sync::atomic::AtomicU8::new(2)), seen: Arc::new(std::sync::Mutex::new(None)) };
+        let dir = Directory::<TC, _, _>::new(StorageManager::new_no_cache(db.clone()), HardCodedAkdVRF {}, AzksParallelismConfig::disabled()).await?;
+        let kv = |k: &str, v: &str| (AkdLabel::from(k), AkdValue::from(v));
+        dir.publish(vec![kv("a", "a1"), kv("b", "b1"), kv("c", "c1")]).await?;
+        armed.store(true, Ordering::SeqCst);
+        dir.publish(vec![kv("a", "a2"), kv("d", "d1")]).await?;
+        let r = db.seen.lock().unwrap().clone();
+        Ok(r)
     }
     /// C12 probe: publish P2 (labels b, e) reads the epoch record, then - before it begins its transaction - another instance over the
     /// same database completes publish P1 (labels a, z). Returns (P2 result epoch or None, epoch afterwards, P1's label a verifies to
     /// P1's value afterwards, P2's label b verifies to P2's value afterwards).
     pub async fn c12_publish_overtaken<TC: Configuration>() -> Result<(Option<u64>, u64, bool, bool), AkdError> {
         let armed = Arc::new(AtomicBool::new(false));
-        let db = HookDb::<TC> { inner: AsyncInMemoryDatabase::new(), armed: armed.clone(), _tc: std::marker::PhantomData };
+        let db = HookDb::<TC> { inner: AsyncInMemoryDatabase::new(), armed: armed.clone(), _tc: std::marker::PhantomData, mode: Arc::new(std::sync::atomic::AtomicU8::new(0)), seen: Arc::new(std::sync::Mutex::new(None)) };
         let dir = Directory::<TC, _, _>::new(StorageManager::new_no_cache(db.clone()), HardCodedAkdVRF {}, AzksParallelismConfig::disabled()).await?;
         let kv = |k: &str, v: &str| (AkdLabel::from(k), AkdValue::from(v));
         dir.publish(vec![kv("a", "a1"), kv("b", "b1"), kv("c", "c1")]).await?;
@@ -767,13 +858,15 @@ pub mod vx_export {
     /// verify against the (epoch, root hash) pair returned with it. Returns Some(description) if it is Ok but does not verify.
     pub async fn c13_request_racing_publish<TC: Configuration>(which: u8) -> Result<Option<String>, AkdError> {
         let armed = Arc::new(AtomicBool::new(false));
-        let db = HookDb::<TC> { inner: AsyncInMemoryDatabase::new(), armed: armed.clone(), _tc: std::marker::PhantomData };
+        let db = HookDb::<TC> { inner: AsyncInMemoryDatabase::new(), armed: armed.clone(), _tc: std::marker::PhantomData, mode: Arc::new(std::sync::atomic::AtomicU8::new(0)), seen: Arc::new(std::sync::Mutex::new(None)) };
         let dir = Directory::<TC, _, _>::new(StorageManager::new_no_cache(db.clone()), HardCodedAkdVRF {}, AzksParallelismConfig::disabled()).await?;
         let kv = |k: &str, v: &str| (AkdLabel::from(k), AkdValue::from(v));
         dir.publish(vec![kv("a", "a1"), kv("b", "b1"), kv("c", "c1")]).await?;
         dir.publish(vec![kv("a", "a2"), kv("d", "d1")]).await?;
         let pk = dir.get_public_key().await?;
         let la = AkdLabel::from("a");
+        if which >= 2 { db.mode.store(1, Ordering::SeqCst); }
+        let which = which % 2;
         armed.store(true, Ordering::SeqCst);
         if which == 0 {
             match dir.lookup(la.clone()).await {
